@@ -23,6 +23,7 @@ type Options struct {
 	keep        bool
 	verbose     bool
 	noReplay    bool
+	noEvidence  bool
 }
 
 func main() {
@@ -42,6 +43,7 @@ func main() {
 	fs.BoolVar(&o.keep, "keep", false, "keep SMT files")
 	fs.BoolVar(&o.verbose, "v", false, "verbose")
 	fs.BoolVar(&o.noReplay, "no-replay", false, "do not run replays")
+	fs.BoolVar(&o.noEvidence, "no-evidence", false, "do not (re)write the evidence file (selftest baselines)")
 	fs.Parse(os.Args[2:])
 	o.seed, _ = strconv.Atoi(envOr("VERIF_SEED", "0"))
 	if o.timeoutMs == 0 {
